@@ -16,6 +16,29 @@ for f in sorted(glob.glob(os.path.join(V, 'seeded', '*', 'meta.json'))):
     note = m.get('first_run', '')
     rows.append('| %s | %s | %s | %s | %s | %s |' % (tag, m['property'], m['summary'].replace('|', '\\|')[:260], m.get('needs', '').replace('|', '\\|')[:200],
                                                    'yes' if m.get('confirmed') else 'NO', '; '.join(det) + ((' — ' + note) if note else '')))
+import collections
+_n, _c = collections.Counter(), collections.Counter()
+for tag in sorted(os.listdir(os.path.join(V, 'seeded'))):
+    mp = os.path.join(V, 'seeded', tag, 'meta.json')
+    if not os.path.exists(mp):
+        continue
+    mm = json.load(open(mp))
+    r = int(tag.split('-')[-1])
+    _n[r] += 1
+    if 'missed' in mm.get('first_run', '').lower():
+        _c[r] += 1
+summary = """%d rounds, %d changes (one per property and round), all confirmed and all reported now.
+%d of them were missed by the property's check when first run (per round: %s);
+the share did not fall from round to round because every sub-agent was told what the earlier ones
+had delivered for its property and had to find a different mechanism, site and trigger - the later
+changes sit in ever remoter corners (a float sum whose order matters, a function that is called
+"root", the unit table's display names, an exclusive creator in another process, a URL longer than
+any file name, the request after a failed one). Every miss was
+turned into a wider alphabet, a new scenario or a new clause (`first run:` notes in the last column),
+and the whole set is re-run as a regression (`seedeval.py --checkonly`) after changes to the checks.
+Reading a miss also uncovered genuine defects of the unchanged tree (F24, F25) and weaknesses of
+oracles that had been tolerant (C04 dot edges, C05 cut that removes everything, C06 option-order
+readings, C15 "0" labels).""" % (len(_n), sum(_n.values()), sum(_c.values()), ', '.join(str(_c[r]) for r in sorted(_n)))
 text = '''### 0.6 Independently written breaking changes (`seeded/`)
 
 Each change was written by a fresh sub-agent that was given only the text of one
@@ -26,9 +49,11 @@ passes with it and that the agent's demonstration fails with it and passes witho
 the patched files; /repo itself is not touched). "first run" notes record checks that
 missed a change at first and what was strengthened; the table shows the final state.
 
+%(summary)s
+
 | tag | property | change | needs | confirmed | caught by (classes) |
 |---|---|---|---|---|---|
-''' + '\n'.join(rows) + '\n\n'
+''' % {'summary': summary} + '\n'.join(rows) + '\n\n'
 p = os.path.join(V, 'DESIGN.md')
 s = open(p).read()
 if '### 0.6 ' in s:
